@@ -7,8 +7,8 @@ CONSTANTS
   Den = 2
   P0 = 40
   Prices <- cPrices
-  Vols = {1, 2, 5}
-  TTLs = {0, 1, 3}
+  Vols = {1, 3}
+  TTLs = {0, 2}
   MaxOrders = 60
   HaltRule <- cHalt
 INVARIANT Conservation
